@@ -171,6 +171,7 @@ def check(chk):
     chk.expect(n_ref >= 6, "C11: per-player references lost (%d)" % n_ref)
 
     _deferred_writes(chk, repo)
+    _player_addressing(chk, repo)
 
     # ------------------------------------------------------------ FLOW-4
     n_f = 0
@@ -335,6 +336,72 @@ def _deferred_writes(chk, repo):
            construct=cc.ident, text="only part of a block list examined")
 
 
+def _player_addressing(chk, repo):
+    """IDX-1: which player a write or a read addresses.  Config player numbers are 1-based, player_list is 0-based; without a
+    number the current player is meant; machine actions never touch a player; both player-placeholder access paths agree."""
+    VP = "mpf/config_players/variable_player.py"
+    f = repo.func(VP, "VariablePlayer._set_variable")
+    chk.analysed(f)
+    cfg = f.cfg()
+    n_w = 0
+    for meth, act in (("add_with_kwargs", "add"), ("set_with_kwargs", "set")):
+        ws = [(n, c) for n, c in cfg.calls_named(meth)]
+        chk.need(len(ws) == 1, "IDX-1", "variable_player action `%s` writes through Player.%s" % (act, meth), f)
+        n, c = ws[0]
+        n_w += 1
+        g = cfg.guards_at(n.id)
+        ok = any(k.replace('"', "'") == "entry['action'] == '%s'" % act and v is True for k, v in g.items())
+        chk.ob("IDX-1", "Player.%s is used exactly for action `%s`" % (meth, act), ok, f.where(c), detail=str(sorted(g.items())), construct=f.ident,
+               text="action " + act)
+        ok = src(c.func.value) == "player" and [src(a) for a in c.args[:2]] == ["var", "value"]
+        chk.ob("IDX-1", "action `%s` writes (var, value) to the addressed player" % act, ok, f.where(c), detail=src(c), construct=f.ident, text="write " + act)
+        # reaching definitions of `player` at the write
+        defs = [x for x in cfg.nodes if x.kind == "stmt" and isinstance(x.ast, ast.Assign) and src(x.ast.targets[0]) == "player" and
+                n.id in cfg.reachable([x.id], include_start=False)]
+        vals = {}
+        for x in defs:
+            gx = cfg.guards_at(x.id)
+            if any(k.replace('"', "'") == "entry['action'] == '%s'" % act and v is True for k, v in gx.items()):
+                vals[src(x.ast.value)] = gx
+        import re
+        cur = [k for k in vals if re.fullmatch(r"(self\.machine\.)?game\.player", k)]
+        idx = [k for k in vals if re.fullmatch(r"(self\.machine\.)?game\.player_list\[entry\['player'\] - 1\]", k)]
+        ok = len(vals) == 2 and len(cur) == 1 and len(idx) == 1 and vals[idx[0]].get("entry['player']") is True and \
+            vals[cur[0]].get("entry['player']") is None
+        chk.ob("IDX-1", "action `%s`: the current player unless a player number is configured; number N addresses player_list[N - 1]" % act, ok,
+               f.where(c), detail=str(sorted(vals)), construct=f.ident, text="addressed player " + act)
+    for n, c in cfg.calls_named("set_machine_var"):
+        g = cfg.guards_at(n.id)
+        acts = [k for k, v in g.items() if v is True and "entry['action'] ==" in k.replace('"', "'")]
+        ok = bool(acts) and all("machine" in k for k in acts)
+        chk.ob("IDX-1", "machine variables are written only by the *_machine actions", ok, f.where(c), detail=str(acts), construct=f.ident,
+               text="machine action " + ",".join(acts))
+        n_w += 1
+    chk.expect(n_w >= 4, "C11: variable_player writes lost (%d)" % n_w)
+    PM = "mpf/core/placeholder_manager.py"
+    pp = repo.cls(PM, "PlayerPlaceholder")
+    forms = {}
+    for nm in ("__getitem__", "__getattr__"):
+        m = pp.methods[nm]
+        chk.analysed(m)
+        mc = m.cfg()
+        subs = [x for x in ast.walk(m.node) if isinstance(x, ast.Subscript) and src(x.value).endswith("game.player_list")]
+        ok = len(subs) == 1 and src(subs[0].slice) == "self._number"
+        if ok:
+            node = [x for x in mc.nodes if x.kind == "stmt" and any(y is subs[0] for y in x.walk())][0]
+            g = mc.guards_at(node.id)
+            ok = g.get("self._number is not None") is True and g.get("len(self._machine.game.player_list) <= self._number") is False
+        chk.ob("IDX-1", "PlayerPlaceholder.%s addresses players[N] as player_list[N] after checking that the player exists" % nm, ok, m.where(),
+               construct=m.ident, text="placeholder index " + nm)
+        cur = [x for x in mc.nodes if x.kind == "stmt" and isinstance(x.ast, ast.Return) and src(x.ast.value).replace(" ", "") in
+               ("self._machine.game.player[item]", "getattr(self._machine.game.player,item)")]
+        ok = len(cur) == 1 and mc.guards_at(cur[0].id).get("self._number is not None") is False
+        chk.ob("IDX-1", "PlayerPlaceholder.%s without a number reads the current player" % nm, ok, m.where(), construct=m.ident, text="placeholder current " + nm)
+        forms[nm] = (len(subs), len(cur))
+    chk.ob("IDX-1", "item and attribute access of the player placeholder address players the same way", len(set(forms.values())) == 1, pp.methods["__getitem__"].where(),
+           detail=str(forms), construct=pp.methods["__getitem__"].ident, text="placeholder siblings")
+
+
 def battery():
     from sa.battery import M
     LBF = "mpf/devices/logic_blocks.py"
@@ -358,6 +425,12 @@ def battery():
         M("score queued with the barrier open", "mpf/devices/score_queue.py", "        self._score_queue_empty.clear()\n        self._score_queue.put_nowait(value)", "        self._score_queue.put_nowait(value)", "BARRIER-1"),
         M("only the newest block of a context is removed", "mpf/config_players/variable_player.py", "        for _, block in self.blocks.items():  # Unused variable \"var\"\n            for entry, s in enumerate(block):\n                if s.context == context:\n                    del block[entry]", "        for block in self.blocks.values():\n            if block and block[-1].context == context:\n                block.pop()", "BLOCK-1"),
         M("twin: blocks rebuilt by filtering", "mpf/config_players/variable_player.py", "        for _, block in self.blocks.items():  # Unused variable \"var\"\n            for entry, s in enumerate(block):\n                if s.context == context:\n                    del block[entry]", "        for var, block in self.blocks.items():\n            self.blocks[var] = [s for s in block if s.context != context]", None),
+        M("configured player number used as list index", "mpf/config_players/variable_player.py", "                    player = self.machine.game.player_list[entry['player'] - 1]\n                except IndexError:\n                    self.warning_log(\"Failed to set player var %s for player %s. There are only %s players.\",\n                                     var, entry['player'] - 1, self.machine.game.num_players)\n            player.set_with_kwargs", "                    player = self.machine.game.player_list[entry['player']]\n                except IndexError:\n                    self.warning_log(\"Failed to set player var %s for player %s. There are only %s players.\",\n                                     var, entry['player'] - 1, self.machine.game.num_players)\n            player.set_with_kwargs", "IDX-1"),
+        M("action add overwrites", "mpf/config_players/variable_player.py", "            player.add_with_kwargs(var, value, source=context)", "            player.set_with_kwargs(var, value, source=context)", "IDX-1"),
+        M("specific player ignored for add", "mpf/config_players/variable_player.py", "            player.add_with_kwargs(var, value, source=context)", "            self.machine.game.player.add_with_kwargs(var, value, source=context)", "IDX-1"),
+        M("players[N] existence check off by one", "mpf/core/placeholder_manager.py", "                if len(self._machine.game.player_list) <= self._number:\n                    raise ValueError(\"Player not in game\")\n                return getattr(", "                if len(self._machine.game.player_list) < self._number:\n                    raise ValueError(\"Player not in game\")\n                return getattr(", "IDX-1"),
+        M("players[N] attribute access one-based", "mpf/core/placeholder_manager.py", "                return getattr(self._machine.game.player_list[self._number], item)", "                return getattr(self._machine.game.player_list[self._number - 1], item)", "IDX-1"),
+        M("twin: game aliased in variable_player", "mpf/config_players/variable_player.py", "            # default to current player\n            player = self.machine.game.player\n            if entry['player']:\n                # specific player\n                try:\n                    player = self.machine.game.player_list[entry['player'] - 1]\n                except IndexError:\n                    self.warning_log(\"Failed to set player var %s for player %s. There are only %s players.\",\n                                     var, entry['player'] - 1, self.machine.game.num_players)\n            player.add_with_kwargs", "            # default to current player\n            game = self.machine.game\n            player = game.player\n            if entry['player']:\n                # specific player\n                try:\n                    player = game.player_list[entry['player'] - 1]\n                except IndexError:\n                    self.warning_log(\"Failed to set player var %s for player %s. There are only %s players.\",\n                                     var, entry['player'] - 1, self.machine.game.num_players)\n            player.add_with_kwargs", None),
     ]
 
 
